@@ -233,6 +233,11 @@ func rerunCases(rc replayCase, gts func() []*gtyp) []*vcase {
 				evalString(t, s, it, reason, cx, rc.Part)
 			}
 		}
+	case "optskip":
+		shapes := osShapes()
+		if i := rc.Index >> 12; i < len(shapes) {
+			evalOptSkip(shapes[i], i, rc.Index&4095, cx)
+		}
 	case "stream":
 		ins := streamInputs()
 		if rc.Index < len(ins) && hx(ins[rc.Index].b) == rc.Input {
@@ -342,6 +347,29 @@ func main() {
 		})
 	}
 	phase("scalars")
+	// 1c'. structs with skipped fields around optional fields (optskip.go)
+	{
+		shapes := osShapes()
+		type job struct{ sh, pattern int }
+		var jobs []job
+		for i, sh := range shapes {
+			for p := 0; p < 1<<uint(len(sh.roles)); p++ {
+				jobs = append(jobs, job{i, p})
+			}
+		}
+		const chunk = 64
+		n := int64(len(jobs))
+		par.For((n+chunk-1)/chunk, 1, nil, func(ci int64) {
+			st := newStats()
+			cx := &ctx{col: viol, st: st}
+			for k := ci * chunk; k < imin64((ci+1)*chunk, n); k++ {
+				evalOptSkip(shapes[jobs[k].sh], jobs[k].sh, jobs[k].pattern, cx)
+			}
+			finishChunk(st)
+		})
+		r.Set("optional_skipped_shapes", len(shapes))
+	}
+	phase("optskip")
 	// 1d. the Stream protocol: every operation sequence up to length L on boundary / faulty headers (streamapi.go)
 	{
 		ins := streamInputs()
@@ -461,6 +489,9 @@ func main() {
 		"(c2) chain types with hand-written decoders (Transaction, Log, LogForStorage incl. legacy format, Receipt, ReceiptForStorage, BlockInfo) and StateAccount / Header: every other header form of the outer list, "+
 		"the first inner list and the first non-empty inner string of small (payload < 56 where the type allows) and ordinary instances, alone, inside a list and behind a canonical sibling: accepted => canonical and re-encoding identical; (b) every value of every generated type (13 leaf kinds x 9 container constructors, "+
 		"depth <= 2) with leaf values from boundary sets; (c) full boundary products of transaction / receipt / block-info / log / state-account / header fields. "+
+		"(b2) structs whose RLP field list differs from their Go field list: 0..1 required and 1..3 optional fields with a skipped field (rlp:\"-\" and unexported, reflect.StructOf) in every subset of the gaps "+
+		"(before all, between required and optional, between optionals, after all), uint64 fields and a mixed family ([]byte, *uint64, string optionals, []byte skipped), plus six fixed Go types, over EVERY zero/non-zero pattern of all fields "+
+		"including the skipped ones: encoding == reference encoding of the non-skipped fields cut after the last non-zero optional, skipped fields do not influence the bytes, round trip and re-encoding; "+
 		"(race pass, run.sh RACEPASS) before this run the checker built with -race ran 8 goroutines behind a barrier on private values: first use of cold types (shared by all goroutines and 3 fresh reflect.StructOf types each, "+
 		"nil/nilList/nilString/optional/tail tags, RawValue, chain types; expected bytes from the reference) and 250 fixed iterations of big integers of every size class, every encoder entry point incl. EncodeToReader "+
 		"(full, piecewise past EOF, abandoned), DecodeBytes, NewStream/NewListStream sequences, Split/CountValues/iterator and the chain types, each result compared with its single-threaded value; verdict in race_pass. "+
@@ -505,6 +536,7 @@ func main() {
 	r.Require(r.Get("noncanonical_int_chain_cases") > 50, "non-canonical integers in chain types not exercised")
 	r.Require(r.Get("stream_sequences") > 500000 && r.Get("stream_ops_predicted") > r.Get("stream_ops")/2, "stream protocol phase did not run or the model predicted less than half of the operations")
 	r.Require(r.Get("chain_header_mutation_cases") > 1000 && r.Get("chain_header_mutation_controls_accepted") >= 60, "chain header mutation phase missing or its canonical controls are not accepted")
+	r.Require(r.Get("optional_skipped_cases") > 10000, "fewer than 10000 optional/skipped-field struct cases")
 	r.Require(r.Get("alloc_measurements") > 1000, "fewer than 1000 allocation measurements")
 	r.Require(r.Get("values") > 5000, "fewer than 5000 generated values")
 	r.Require(r.Get("reference_encodings_compared") > 5000, "fewer than 5000 encodings compared with the reference")
